@@ -20,6 +20,11 @@ CLAIMED = {
         "level": "Decides only the operator/width/signedness selection tables and operand wiring (every row of every table, exhaustively); the behaviour of generated code for all programs and inputs is NOT decided (not statically reachable).",
         "note": "Partial: clauses T1-T4.",
     },
+    "C20": {
+        "technique": "sibling-table cross-check of the evaluator's per-instruction arms against the code generator's (HIR table extraction, operand-origin tracing), divergence check of every catch-all arm, assertion-before-access ordering",
+        "level": "Decides mirror agreement arm by arm (all Instruction variants, all IntCmp/FloatCmp rows, all arithmetic rows), loud fallbacks and checked-memory ordering; equality of results over all scripts is not decided.",
+        "note": "Partial: clauses V1-V4. Memory::get's missing frame-id check is reported as a cross-reference only (no witness IR).",
+    },
 }
 _PENDING = "check under construction in this session; not yet claimed"
 NOT_APPLICABLE = {p: _PENDING for p in
